@@ -1,7 +1,7 @@
 SPECIFICATION Spec
 CONSTANTS Kind = "kernel"
- NMax = 130
- DMax = 24
+ NMax = 100
+ DMax = 16
  LMax = 0
  ScaleSet = {0}
 INVARIANT Emit
